@@ -7,7 +7,7 @@
 From Coq Require Import List NArith ZArith Bool Lia Arith.
 From GmsmVerif Require Import Lib.Outcome EC.ECAffine EC.SM2Curve SM3.SM3Spec
      SM2.SM2Bytes SM2.SM2BytesProofs SM2.SM2Spec SM2.DER SM2.SM2Model SM2.SM2SignProofs SM2.SM2GroupMin
-     SM2.SM2EncProofs SM2.SM2Asn1Proofs SM2.SM2OtherKey SM2.SM2Unconditional SM2.SM2Consumers.
+     SM2.SM2EncProofs SM2.SM2Asn1Proofs SM2.SM2OtherKey SM2.SM2Unconditional SM2.SM2Consumers SM2.SM2Audit1.
 From GmsmVerif Require Import SM2.SM2ParamsTie Gen.SM2Params Gen.SM2SigParams.
 Import ListNotations.
 Open Scope Z_scope.
@@ -253,6 +253,45 @@ Theorem C02_processClientKeyExchange_reports_errors :
       CipherUnmarshal cipher = Ok raw /\ Decrypt pr raw 0 = Ok plain /\ length plain = 48%nat.
 Proof. exact processClientKeyExchange_ok. Qed.
 Print Assumptions C02_processClientKeyExchange_reports_errors.
+
+(* ---- the ASN.1 forms are one-step compositions ----------------------------------------------------------------------
+   EncryptAsn1 = DER SEQUENCE{INTEGER x1, INTEGER y1, OCTET STRING C3, OCTET STRING C2} of the components of the
+   standard's ciphertext for the first admissible nonce; DecryptAsn1 = CipherUnmarshal, then Decrypt: a plaintext comes
+   out only through an error-free Decrypt of the unmarshalled bytes, so every rejection theorem above (short, prefix,
+   C1 off the curve, altered C2 / C3, other key) applies to the ASN.1 form through C02_decrypt_ok_implies. *)
+Theorem C02_encryptAsn1_is_standard :
+  forall fuel pub M rho,
+    0 <= fst pub < sm2_p -> 0 <= snd pub < sm2_p -> M <> [] -> (length rho / 40 < fuel)%nat ->
+    Z.of_nat (length M) < 65000 ->
+    EncryptAsn1 fuel pub M rho =
+    match encrypt_spec (go_decode pub) M rho C1C3C2 with
+    | Some (i, c) =>
+      Ok (asn1_marshal_cipher (os2ip (slice c 1 33)) (os2ip (slice c 33 65)) (slice c 65 97) (skipn 97 c),
+          skipn (40 * S i) rho)
+    | None => Err 2
+    end.
+Proof. exact EncryptAsn1_is_standard. Qed.
+Print Assumptions C02_encryptAsn1_is_standard.
+
+Theorem C02_decryptAsn1_ok_implies :
+  forall pr der M,
+    DecryptAsn1 pr der = Ok M ->
+    exists raw, CipherUnmarshal der = Ok raw /\ Decrypt pr raw 0 = Ok M /\
+      (98 <= length raw)%nat /\ hd 0%N raw = 4%N /\
+      let '(x, y, C3, C2) := split_ciphertext C1C3C2 raw in
+      sm2_valid (Some (x, y)) = true /\
+      let S := sm2_mul (D pr) (Some (x, y)) in
+      M = xor_bytes C2 (kdf_spec (fe_bytes (x_of S) ++ fe_bytes (y_of S)) (length C2)) /\
+      C3 = sm3 (fe_bytes (x_of S) ++ M ++ fe_bytes (y_of S)).
+Proof.
+  intros pr der M H. apply DecryptAsn1_ok_implies in H as (raw & Hu & Hd). exists raw.
+  split; [exact Hu|]. split; [exact Hd|]. exact (Decrypt_ok_implies pr raw 0 M Hd).
+Qed.
+Print Assumptions C02_decryptAsn1_ok_implies.
+
+Theorem C02_decryptAsn1_never_crashes : forall pr der, no_crash (DecryptAsn1 pr der).
+Proof. exact DecryptAsn1_never_crashes. Qed.
+Print Assumptions C02_decryptAsn1_never_crashes.
 
 (* ---- tie to the source: curve constants, 40 nonce bytes, mode values, minimal ciphertext length ---------- *)
 Theorem C02_source_constants_tied :
